@@ -47,13 +47,18 @@ func collectC17() {
 	}
 	// well-known features, by name: encoded (contract, selector) of one method per spork-gated feature
 	feature := func(coq string, c types.Address, method string) {
-		for _, e := range embedded.VerifMethodTables()[3] {
-			if e.Contract == c && e.Name == method && e.Selector != nil {
-				cI(coq, idx[c]<<32+int64(binary.BigEndian.Uint32(e.Selector)))
-				return
+		// any table: a feature missing from the newest table is for the theorems (C17_features_available) and the
+		// node suite to report, not for the constant dump to crash on
+		tabs := embedded.VerifMethodTables()
+		for t := len(tabs) - 1; t >= 0; t-- {
+			for _, e := range tabs[t] {
+				if e.Contract == c && e.Name == method && e.Selector != nil {
+					cI(coq, idx[c]<<32+int64(binary.BigEndian.Uint32(e.Selector)))
+					return
+				}
 			}
 		}
-		panic("feature method not callable in the htlc table: " + method)
+		panic("feature method in no method table: " + method)
 	}
 	feature("FeaturePlasmaFuse", types.PlasmaContract, definition.FuseMethodName)
 	feature("FeatureSporkActivate", types.SporkContract, definition.SporkActivateMethodName)
